@@ -162,7 +162,7 @@ func TestVerif_C06(t *testing.T) {
 		}
 	})
 	nb := pick(r, 64, 1024)
-	per := pick(r, 60, 450)
+	per := pick(r, 60, 200)
 	r.Parallel(nb, func(l *Local) {
 		for i := 0; i < per; i++ {
 			c := randRichValidCfg(l.Rng)
